@@ -30,6 +30,9 @@
   * filled triangles: the three vertices lie in the stroke box (used only for rows that no stroke
     scanline reaches, where the plain triangle scanline is filled; the vertices can be outside the
     box of a thin sliver - 16 of 117128 lattice triangles - but then every row has stroke scanlines).
+    EG/Props/C02/JoinsBBoxAlign.lean removes this clause for OUTSIDE strokes (the vertices are the right
+    corners of the joins, always boxed) and weakens it to the COLUMNS of the box for Center strokes; for
+    Inside strokes it reduces `TriOutlineGuard` to the inner corners of the three joins.
 -/
 import EG.Lemmas.JoinsBBoxPolyMain
 import EG.Lemmas.JoinsBBoxTriMain
@@ -284,8 +287,8 @@ example : TriOutlineGuard ⟨⟨0, 0⟩, ⟨20, 3⟩, ⟨6, 18⟩⟩ ⟨some 1, 
 example : (⟨⟨0, 0⟩, ⟨20, 3⟩, ⟨6, 18⟩⟩ : Tri).sortedClockwise.isCollapsed 3 .right = some false := by decide
 example : TriOutlineGuard ⟨⟨-3, 2⟩, ⟨15, -9⟩, ⟨8, 14⟩⟩ ⟨none, some 2, 2, .inside⟩ := by decide
 
--- [V] stroked polyline / triangle (width > 1) with a skeleton segment beside a join whose filler line is on the left side, when the midpoint of that filler line is NOT in the box (guard `adjOK`; no such input is known): carried by correspondence + oracle only
--- [V] filled triangle with a Center / Outside stroke of width > 1 whose vertices are not all inside the stroke box (thin slivers; guard `TriStrokeGuard`): the plain triangle scanline of a row without stroke scanlines stays in the box: carried by correspondence + oracle only
--- [V] triangle with an Inside stroke of width > 1 that is not collapsed: the inner corners (rounded intersections of the inner edge lines; hypothesis `TriOutlineGuard` of `triangle_in_bounding_box_of_outline`) lie inside the plain vertex box: carried by correspondence + oracle only
+-- [V] stroked polyline / triangle (width > 1) with a skeleton segment beside a join whose filler line is on the left side, when the midpoint of that filler line is NOT in the box (guard `adjOK`; no such input is known: none among 1.06 * 10^6 four-vertex lattice polylines of widths 2 and 3, 2.1 * 10^6 lattice triangles of widths 2..14 in all alignments, and every join found to make a skeleton segment - 516 of 6.7 * 10^5 lattice joins (Center and Outside) of widths 2..5 - is a width-2 MITER join with all corners on the vertex, which has no filler line): carried by correspondence + oracle only
+-- [V] filled triangle with a CENTER stroke of width > 1 with a vertex whose x coordinate is outside the columns of the stroke box (thin slivers; guard `TriStrokeColumnsGuard`, Props/C02/JoinsBBoxAlign.lean; 12 of the 114 920 Center-stroke ops of the lattice v1 = 0, v2, v3 in [-6, 6]^2, widths 2..9; Outside strokes are proved: their vertices always lie in the stroke box): the plain triangle scanline of a row without stroke scanlines stays in the box: carried by correspondence + oracle only
+-- [V] triangle with an Inside stroke of width > 1 that is not collapsed: the inner (right) corners of the three joins (at most six points, rounded intersections of the inner edge lines; hypothesis `TriInsideGuard` of `triangle_inside_in_bounding_box_of_inner_corners`, Props/C02/JoinsBBoxAlign.lean - everything else `TriOutlineGuard` asked for is proved; `TriOutlineGuard` held on all 49 331 non-collapsed Inside strokes among 160 000 random triangles with vertices within +-80 and widths 2..8, and on all 5 760 of the lattice v2, v3 in [-6, 6]^2) lie inside the plain vertex box: carried by correspondence + oracle only
 
 end EG.C02.JoinsBBox
